@@ -42,21 +42,47 @@ def writers_agree(run, ctx):
         out = {}
         for v, (pat, arm) in arms.items():
             res = set()
-            for p in S.paths_of(arm["body"]):
+            for p in S.paths_of(arm["body"], combinators=True):
                 if p.exit == "try-err":
                     continue
                 val = wrx.sub(lambda m: "W(%s)" % m.group(1), p.val or "")
                 writes = [wrx.sub(lambda m: "W(%s)" % m.group(1), ev.a) for ev in p.events if ev.kind == "call" and wrx.search(ev.a or "")]
                 dec = []
+                feasible_ = True
+                known = {}
+                lets_ = {}
+                aliases = {}
                 for i_, kind, bound in S.opt_outcomes(p, "{*x}"):
                     ev = p.events[i_]
                     scr = ev.b if ev.kind in ("letcond", "let", "let-else") else ev.a
-                    dec.append((scr, kind, re.sub(r"^\w+\((\w+)\)$", r"\1", bound or "")))
+                    # a named temporary holding an Option reads through to what it was computed from on this path
+                    for e2 in p.events[:i_]:
+                        if e2.kind == "let" and re.match(r"^\w+$", e2.a or "") and e2.b is not None:
+                            lets_[e2.a] = e2.b
+                    if scr in lets_:
+                        scr = H.subst_lets(scr, lets_)
+                    bnd = re.sub(r"^\w+\((\w+)\)$", r"\1", bound or "")
+                    if scr == "None" or (scr or "").startswith("Some("):
+                        # a literal decides itself
+                        if (scr == "None") != (kind == "none"):
+                            feasible_ = False
+                        continue
+                    if scr in known:
+                        if known[scr] != kind:
+                            feasible_ = False      # the same Option cannot be Some and None on one path
+                        else:
+                            aliases.setdefault(scr, []).append(bnd)   # decided before: another name for the same payload
+                        continue
+                    known[scr] = kind
+                    dec.append((scr, kind, bnd))
+                if not feasible_:
+                    continue
                 # name the bound variables positionally
                 names = {}
-                for di, (_, _, bnd) in enumerate(dec):
-                    if re.match(r"^\w+$", bnd or ""):
-                        names[bnd] = "m%d" % di
+                for di, (scr_, _, bnd) in enumerate(dec):
+                    for b_ in [bnd] + aliases.get(scr_, []):
+                        if re.match(r"^\w+$", b_ or ""):
+                            names[b_] = "m%d" % di
                 pm = re.match(r"^Step::\w+\((\w+)\)$", pat)
                 if pm:
                     names[pm.group(1)] = "ARG"
@@ -70,16 +96,13 @@ def writers_agree(run, ctx):
         "Error": {((), "Ok(())", ())},
         "GroupNum": {((("captures.get(ARG)", "some"),), "W(m0)", ()), ((("captures.get(ARG)", "none"),), "Ok(())", ())},
         "GroupName": {((("captures.name(ARG)", "some"),), "W(m0)", ()),
-                      ((("captures.name(ARG)", "none"), ("ARG.parse().ok().and_then(|num| captures.get(num))", "some")), "W(m1)", ()),
-                      ((("captures.name(ARG)", "none"), ("ARG.parse().ok().and_then(|num| captures.get(num))", "none")), "Ok(())", ())},
+                      ((("captures.name(ARG)", "none"), ("ARG.parse().ok()", "some"), ("captures.get(m1)", "some")), "W(m2)", ()),
+                      ((("captures.name(ARG)", "none"), ("ARG.parse().ok()", "some"), ("captures.get(m1)", "none")), "Ok(())", ()),
+                      ((("captures.name(ARG)", "none"), ("ARG.parse().ok()", "none")), "Ok(())", ())},
     }
 
     def norm_clo(o):
-        # closure parameter names inside and_then(|x| ..) do not matter
-        out = {}
-        for v, res in o.items():
-            out[v] = {(tuple((re.sub(r"\|(\w+)\| captures\.get\(\1\)", "|num| captures.get(num)", s_), k_) for s_, k_ in dec), val, wr) for dec, val, wr in res}
-        return out
+        return o
     ob = norm_clo(outcomes(b[0], W_VEC))
     if ob != want:
         run.violation(fam, label, "vec-shape", H.where(b[0]), "write_expansion_vec: %s; found %s" % (what, {k: sorted(v) for k, v in ob.items() if want.get(k) != v} or ob))
@@ -205,15 +228,17 @@ def scanner_shape(run, ctx):
     def need(s, key, what):
         nonlocal n
         n += 1
-        if not H.find_pat(c, s):
-            run.violation(fam, label, key, H.where(fn), "Expander::exec: %s; `%s` not found in %s" % (what, s, c[:200]))
+        alts = [s] if isinstance(s, str) else s
+        if not any(H.find_pat(c, a_) for a_ in alts):
+            run.violation(fam, label, key, H.where(fn), "Expander::exec: %s; `%s` not found in %s" % (what, alts[0], c[:200]))
     whole = ("let {it} = %s.chars(); while let Some({c}) = {it}.next() {if ({c} == self.sub_char) {let {tail} = {it}; "
              "let {skip} = if {tail}.starts_with(self.sub_char) {%s(Step::Char(self.sub_char))?; 1} "
              "else {if let Some(({id},{sk1})) = parse_id({tail},self.open,self.close,false).or_else(|| if self.allow_undelimited_name {parse_id({tail},\"\",\"\",false)} else {None}) {%s(Step::GroupName({id}))?; {sk1}} "
              "else {if let Some(({sk2},{num})) = parse_decimal({tail},0) {%s(Step::GroupNum({num}))?; {sk2}} "
              "else {%s(Step::Error)?; %s(Step::Char(self.sub_char))?; 0}}}; "
              "{it} = {it}[{skip}..].chars()} else {%s(Step::Char({c}))?}}; Ok(())") % (T, F, F, F, F, F, F)
-    need(whole, "scanner", "the template is scanned char by char; at the substitution character the alternatives are tried in the documented order (doubled character -> one literal char and skip exactly 1 byte; delimited name, then if allowed the longest undelimited identifier; decimal group number; otherwise the character is copied verbatim after reporting the malformed reference) and scanning resumes `skip` bytes into the tail")
+    # `tail` is `iter.as_str()` taken before the decision and `iter` is untouched in between: resuming from either is the same
+    need([whole, whole.replace("{it} = {it}[{skip}..].chars()", "{it} = {tail}[{skip}..].chars()")], "scanner", "the template is scanned char by char; at the substitution character the alternatives are tried in the documented order (doubled character -> one literal char and skip exactly 1 byte; delimited name, then if allowed the longest undelimited identifier; decimal group number; otherwise the character is copied verbatim after reporting the malformed reference) and scanning resumes `skip` bytes into the tail")
     es = S.get_fn(run, ctx, "expand::Expander::escape", fam, label)
     if es is not None:
         ce = H.canon(es["body"])
